@@ -1,21 +1,23 @@
 (* Model/Cache.v — executable model of nitime's FFT cache and of the dense Welch reference (C09).
 
-   Source lines modelled (nitime at /repo, after the two `fix:` commits a877b11 and 874e1e9):
+   Source modelled (nitime at /repo after the fix commits a877b11 and 874e1e9; line numbers as of
+   /repo commit 533f237):
      utils.zero_pad                 nitime/utils.py 1285-1314           zero_pad
      utils.get_bounds               nitime/utils.py 1221-1243           ss_left / ss_right / get_bounds
                                     (np.searchsorted on a sorted vector = a count)
-     cache_fft                      algorithms/cohere.py 893-1030       cache_default_overlap, cache_starts,
-         all_channels 958-961                                           chans_of
-         band 974-980 (lb_idx, ub_idx, n_freqs, unpaired_idx)           unpaired_idx
-         window 982-986, norm_val 992-1000                              norm_val
-         i_times 1006, slices 1011-1025 (window * slice, fft[lb:ub])    windows_of, slices_of, cache_fft
-     cache_to_psd                   cohere.py 1033-1081                 cache_to_psd, psd_is2d
-     cache_to_relative_phase        cohere.py 1126-1192                 relphase_entry
-     cache_to_coherency             cohere.py 1195-1280 (four branches) coh_entry, coh_shape, cache_to_coherency
-     SeedCoherenceAnalyzer.coherency analysis/coherence.py 649-719      seed_inject, seed_entry
+     cache_fft                      algorithms/cohere.py 894-1032
+         default overlap 948                                            cache_default_overlap
+         all_channels 959-962                                           chans_of
+         band 975-981 (lb_idx, ub_idx, n_freqs, unpaired_idx)           get_bounds, unpaired_idx
+         window 983-987, norm_val 993-1001                              norm_val (window values are data)
+         i_times 1007, slices 1012-1026 (window * slice, fft[lb:ub])    cache_starts, windows_of, slices_of, cache_fft
+     cache_to_psd                   cohere.py 1035-1082                 cache_to_psd, psd_is2d
+     cache_to_relative_phase        cohere.py 1128-1194                 relphase_entry
+     cache_to_coherency             cohere.py 1197-1282 (four branches) coh_entry, coh_shape, cache_to_coherency
+     SeedCoherenceAnalyzer.coherency analysis/coherence.py 667-736      seed_inject, target_cache, seed_row
      dense reference:
        matplotlib.mlab.csd (its contract, as read from mlab._spectral_helper/csd)   mlab_spectrum, mlab_csd
-       get_spectra (welch)          algorithms/spectral.py 97-135       dense_default_overlap, dense_fxy
+       get_spectra (welch)          algorithms/spectral.py 103-139      dense_default_overlap, dense_fxy
        coherency / coherency_spec   algorithms/cohere.py 24-105         dense_coh
 
    Not modelled, supplied as data / abstract function:
@@ -24,7 +26,9 @@
      vector (utils.get_freqs — property C05), sqrt and angle (a coherency value is the symbolic
      `CDivSqrt pxy pxx pyy` = pxy / sqrt (pxx * pyy); a phase is `PAngle z` / `PMeanAngle zs`).
    ndarrays are lists (of lists); FFT_slices[c] has one row per window and one column per bin of
-   the band.  No proofs in this file. *)
+   the band.  dred / dadd / cmuld / csumr are value-preserving normalisations (proved equal to the
+   plain Q operations in Proofs/CacheP.v) that keep the fractions short when the model is executed.
+   No proofs in this file. *)
 From Coq Require Import QArith List Arith ZArith Bool Lia.
 From NT Require Import QC Sums.
 Import ListNotations.
@@ -48,9 +52,23 @@ Definition qsum (l : list Q) : Q := fold_right (fun x acc => dred (x + acc)) 0 l
 Definition sumsq (w : list Q) : Q := qsum (map (fun x => x * x) w).     (* (np.abs(w) ** 2).sum() *)
 Definition at2 (l : list (list C)) (s k : nat) : C := nth k (nth s l []) c0.
 Definition cred (z : C) : C := (dred (re z), dred (im z)).
+(* addition that aligns binary exponents when both denominators are powers of two (same value as Qplus) *)
+Fixpoint plog2 (d : positive) : option nat :=
+  match d with xH => Some 0%nat | xO d' => option_map S (plog2 d') | xI _ => None end.
+Definition dadd (x y : Q) : Q :=
+  match plog2 (Qden x), plog2 (Qden y) with
+  | Some a, Some b =>
+      if (a <=? b)%nat then Qmake (Z.shiftl (Qnum x) (Z.of_nat (b - a)) + Qnum y) (Qden y)
+      else Qmake (Qnum x + Z.shiftl (Qnum y) (Z.of_nat (a - b))) (Qden x)
+  | _, _ => x + y
+  end.
+Definition caddd (a b : C) : C := (dadd (re a) (re b), dadd (im a) (im b)).
+(* complex product with the aligned addition (same value as QC.cmul) *)
+Definition cmuld (a b : C) : C :=
+  (dadd (re a * re b) (- (im a * im b)), dadd (re a * im b) (im a * re b)).
 (* sum_{s<n} f s with reduced fractions (same value as QC.csumn) *)
 Fixpoint csumr (f : nat -> C) (n : nat) : C :=
-  match n with O => c0 | S n' => cred (cadd (csumr f n') (f n')) end.
+  match n with O => c0 | S n' => cred (caddd (csumr f n') (f n')) end.
 Definition nq (n : nat) : Q := inject_Z (Z.of_nat n).
 (* np.mean(A, 0) of an n-row array, one column *)
 Definition cmean (f : nat -> C) (n : nat) : C := cscale (/ nq n) (csumr f n).
@@ -141,7 +159,7 @@ Definition cache_fft (ts : Z -> list Q) (ij : list (Z * Z)) (wv : list Q) (nfft 
 End WithDFT.
 
 (* ------------------------------------------------------------------ cache_to_psd *)
-Definition prod_sl (a b : list (list C)) (s k : nat) : C := cmul (at2 a s k) (at2 b s k).
+Definition prod_sl (a b : list (list C)) (s k : nat) : C := cmuld (at2 a s k) (at2 b s k).
 
 (* FFT_conj_slices[i] if the dict is non-empty, else np.conjugate(FFT_slices[i]) *)
 Definition conj_sl (ch : cache) (key : Z) : list (list C) :=
@@ -260,7 +278,7 @@ Definition mlab_scale (wv : list Q) (fs : Q) (sbf : bool) : Q :=
    sc = mlab_scale wv fs sbf *)
 Definition mlab_csd_from (SX SY : list (list C)) (sc : Q) (nfft : nat) (k : nat) : C :=
   let nw := length SX in
-  let term s := cmul (cconj (at2 SX s k)) (at2 SY s k) in
+  let term s := cmuld (cconj (at2 SX s k)) (at2 SY s k) in
   let m := if (1 <? nw)%nat then cmean term nw else term 0%nat in
   cscale ((if mlab_doubled nfft k then 2 else 1) / sc) m.
 Definition mlab_csd (wv x y : list Q) (nfft : nat) (fs : Q) (ovl : nat) (sbf : bool) : nat -> C :=
